@@ -78,6 +78,16 @@ struct BufPool {
                 if (a0 < b1 && b0 < a1) sh = true;
             }
         o << ";sh=" << (sh ? 1 : 0);
+        // the comparison operators between objects with DIFFERENT histories: ==, != and compare() must say "equal"
+        // exactly when sizes and elements are equal (reported only when they do not, so that the line is unchanged)
+        for (int i = 0; i < pool; ++i)
+            for (int k = 0; k < pool; ++k) {
+                if (i == k || !live[i] || !live[k]) continue;
+                const B &x = at(i), &y = at(k);
+                bool same = x.size() == y.size();
+                for (size_t j = 0; same && j < x.size(); ++j) same = x.data()[j] == y.data()[j];
+                if ((x == y) != same || (x != y) == same || (x.compare(y) == 0) != same) o << ";cmpbad=" << i << "," << k;
+            }
         return o.str();
     }
 
@@ -294,6 +304,15 @@ struct StrPool {
                 if (a0 < b1 && b0 < a1) sh = true;
             }
         o << ";sh=" << (sh ? 1 : 0);
+        // comparison between strings with different histories (see BufPool::observe)
+        for (int i = 0; i < pool; ++i)
+            for (int k = 0; k < pool; ++k) {
+                if (i == k || !live[i] || !live[k]) continue;
+                const S &x = at(i), &y = at(k);
+                bool same = x.size() == y.size() && memcmp(x.c_str(), y.c_str(), x.size()) == 0;
+                if ((x == y) != same || (x != y) == same || (x.compare(y) == 0) != same
+                    || (same && ST::hash()(x) != ST::hash()(y))) o << ";cmpbad=" << i << "," << k;
+            }
         return o.str();
     }
 
